@@ -1,5 +1,6 @@
 //! Entry point of the verification harness. See /verif/DESIGN.md.
 pub mod board;
+pub mod c10;
 pub mod corpus;
 pub mod eng;
 pub mod oracle;
@@ -184,6 +185,7 @@ pub fn main() {
                 "C09" => uci::run_c09(&ctx, "C09"),
                 "C14" => uci::run_c09(&ctx, "C14"),
                 "C15" => uci::run_c15(&ctx),
+                "C10" => c10::run_c10(&ctx),
                 other => Err(format!("unknown uci property '{other}'")),
             };
             if let Err(e) = r {
